@@ -1228,8 +1228,7 @@ theorem realloc_where (cfg : Cfg) (ok : CfgOK cfg) (h : Heap) (p n sz : Nat) (r 
 
 /-! ### memory semantics of the events (specification vocabulary) -/
 
-/-- contents of the arena: byte offset ↦ value -/
-abbrev Mem := Nat → Nat
+-- (`Mem`: since round 3b in Model.lean)
 
 /-- `m'` is a possible memory after the event: a store changes nothing outside
 its range (the values stored by the allocator are left unspecified), `memcpy`
